@@ -36,6 +36,7 @@ type Url struct {
 	searchParams     *SearchParams
 	validationErrors []error
 	parser           *parser
+	inSetter         bool // true while a setter runs the parser with a state override
 }
 
 // Href implements WHATWG url api (https://url.spec.whatwg.org/#api)
